@@ -31,6 +31,21 @@ CHECKS = {
                      'are checked on hostile formulas with eval/exec/open/compile/print/os.system wrapped',
                 note='formula grammar bounded by operator count and 7 leaves; minor failure under a formula is not defined '
                      'by the statement and not compared'),
+    'C14': dict(engine='E2-seq', category='exploration', technique='bounded-exhaustive input enumeration on real Context '
+                'objects of a live (handshaken) cluster against a set-valued reference model',
+                ref='DESIGN.md section 4, C14',
+                text='the real get_supvisors_instance is evaluated on the complete product of load tables, ordered candidate '
+                     'subsets, pending-request maps, loads, strategies and requesters of a 4-instance / 2-node cluster (also '
+                     'after a re-identification), and real SINGLE_INSTANCE / SINGLE_NODE application starts are observed on '
+                     'the wire; every answer must belong to the reference set',
+                note='loads in {0,30,60,90} per instance, expected_loading in {0,40,70,100}; ties beyond the documented '
+                     'tie-break are all acceptable'),
+    'C20': dict(engine='E2-seq', category='exploration', technique=E2, ref='DESIGN.md section 4, C20',
+                text='every stream of samples up to the depth bound over the alphabet (time steps, key sets changing, counters '
+                     'wrapping, pid changes, unknown instance) is pushed into the real compilers; depth, alignment, period gate, '
+                     'value ranges and integrated values are checked after every push against a reference model',
+                note='states merged on an abstract key (lengths, key sets, capped time since the reference sample, order '
+                     'relations); the number of CPU cores is constant within a stream'),
 }
 
 ENGINES = [
